@@ -1,4 +1,4 @@
-\* code as it is (FixData off): the index entry of a child carries the parent's body as data
+\* before the repair (FixData off): the index entry of a child carries the parent's body as data
 CONSTANTS
  Images <- ImagesData
  Options <- OptsAsisData
@@ -10,6 +10,7 @@ CONSTANTS
  FixAdded = TRUE
  FixTag = TRUE
  FixClose = TRUE
+ FixDesc = TRUE
  Fine = FALSE
 SPECIFICATION Spec
 INVARIANTS PostTruthful
